@@ -60,3 +60,24 @@ Proof.
     apply Z.mod_mul. lia. }
   lia.
 Qed.
+
+(** Non-vacuity: two readers (a lookup and a touch) on a directory holding "a"
+    (inode 2, mtime 100, unread): under an interleaved schedule both finish, the
+    modification time is still 100 and the entry is now marked (atime >= mtime). *)
+Example C09_example :
+  let mk (f : fs) (p : path) (c : N) :=
+    let '(f1, i) := alloc_inode f (mkInode false [c] 292 100%Z 50%Z 1 true) in
+    set_names f1 ((p, i) :: names f1) in
+  let '(f0, d) := alloc_inode empty_fs (mkInode true [] 493 0%Z 0%Z 2 true) in
+  let f0 := set_names f0 ((["w"%string], d) :: names f0) in
+  let f := mk f0 ["w"; "a"]%string 65%N in
+  let cfg := mkStack 0 (Some (FPlain ["w"%string] 300)) [] None false ["systmp"%string] in
+  let k := mkKey "a"%string 1 2 in
+  let o := mkOracle [1000; 1001]%Z [] [] [] [] None 0 1%Z Relatime in
+  let ps : list (prog (outcome unit) * oracle) :=
+    [ (bind (cache_get cfg k) (fun _ => Ret (Ok tt)), o); (bind (cache_touch cfg k) (fun _ => Ret (Ok tt)), o) ] in
+  let st := run_sched [0; 1; 0; 1; 0; 1; 1; 0]%nat (spawn_all ps ([], f)) in
+  mtime f 2 = Some 100%Z /\ mtime (snd st) 2 = Some 100%Z /\
+  map (fun t => finished (th_prog t)) (fst st) = [true; true] /\
+  option_map (fun x => (i_mtime x <=? i_atime x)%Z) (inode_of (snd st) 2) = Some true.
+Proof. vm_compute. repeat split. Qed.
